@@ -27,6 +27,10 @@ pub fn validate(uri: &str) -> Result<NonZeroU8, MxcUriError> {
     } else if server_name::validate(server_name).is_err() {
         Err(MxcUriError::ServerNameMalformed)
     } else {
-        Ok(NonZeroU8::new((index + 6) as u8).unwrap())
+        // The index of the slash is stored in a `u8`, so the server name can't be longer than that.
+        u8::try_from(index + 6)
+            .ok()
+            .and_then(NonZeroU8::new)
+            .ok_or(MxcUriError::ServerNameMalformed)
     }
 }
